@@ -174,6 +174,7 @@ func main() {
 		agree(text, pc.Res.Verdict, pc.Res.Family, json.RawMessage(c))
 	}
 	batches(tier)
+	modelBatches(tier)
 	run.Exhaustive = true
 	run.Finish()
 }
@@ -329,6 +330,121 @@ func batches(tier string) {
 			}
 		}
 	}
+}
+
+// modelBatches replays every batch of Batch.tla: classes are concretised from the statement pools (heavy = a
+// 20,000-column SELECT), each batch several times, and both helpers must fail at the specification's index with
+// the error code the failing query gives on its own, or return one tree per query.
+func modelBatches(tier string) {
+	cfg, reps := "Batch_q.cfg", 3
+	if tier == "thorough" {
+		cfg, reps = "Batch_t.cfg", 6
+	}
+	r := core.MustTLC(core.TLCOpts{Spec: "Batch", Cfg: cfg, Timeout: 5 * time.Minute})
+	run.AddTLC(r.Stat("batch helpers: all short batches and long batches with probe failures; FailsIffSomeBad, FirstFailure, NoTreesOnFailure, TreesInOrder"))
+	lv := core.MustTLC(core.TLCOpts{Spec: "Batch", Cfg: "Batch_live.cfg", Timeout: 2 * time.Minute})
+	run.AddTLC(lv.Stat("batch helpers: termination"))
+	var hb strings.Builder
+	hb.WriteString("SELECT ")
+	for i := 0; i < 20000; i++ {
+		if i > 0 {
+			hb.WriteString(", ")
+		}
+		fmt.Fprintf(&hb, "c%d", i)
+	}
+	hb.WriteString(" FROM t")
+	heavy := hb.String()
+	for bi, line := range r.Cases {
+		var c struct {
+			Batch  []string `json:"batch"`
+			OK     bool     `json:"ok"`
+			Index  int      `json:"index"`
+			Family string   `json:"family"`
+		}
+		if err := json.Unmarshal([]byte(line), &c); err != nil {
+			core.Fatalf("bad batch case %q: %v", line, err)
+		}
+		for rep := 0; rep < reps; rep++ {
+			qs := make([]string, len(c.Batch))
+			for i, cl := range c.Batch {
+				switch cl {
+				case "ok":
+					qs[i] = good[(bi+rep*7+i)%len(good)].SQL
+				case "heavy":
+					qs[i] = heavy
+				case "syntax":
+					qs[i] = bad[(bi+rep*5+i)%len(bad)].SQL
+				case "lex":
+					qs[i] = lexGarbage[(bi+rep+i)%len(lexGarbage)]
+				}
+			}
+			run.Eval(2)
+			if len(qs) >= 8 {
+				run.Nontrivial(line)
+			}
+			fail := func(sig string, obs, exp any) {
+				show := qs
+				if len(show) > 0 && len(show[0]) > 200 {
+					show = append([]string{"<heavy: SELECT c0, ..., c19999 FROM t>"}, qs[1:]...)
+				}
+				run.Violate(core.Violation{Sig: sig, Clause: "a batch call fails at the first failing index with that query's error, and returns what the individual calls return",
+					Case: map[string]any{"kind": "model-batch", "classes": c.Batch, "batch": show}, Observe: obs, Expect: exp})
+			}
+			wantCode := ""
+			if !c.OK {
+				_, ierr := gosqlx.Parse(qs[c.Index])
+				if ierr == nil {
+					core.Fatalf("class %s concretised by an accepted query %q", c.Batch[c.Index], qs[c.Index])
+				}
+				wantCode = ops.Err(ierr).Code
+			}
+			trees, perr := gosqlx.ParseMultiple(qs)
+			verr := gosqlx.ValidateMultiple(qs)
+			for name, e := range map[string]error{"ParseMultiple": perr, "ValidateMultiple": verr} {
+				if (e == nil) != c.OK {
+					fail("batch-verdict-differs|"+name, fmt.Sprint(e), c.OK)
+					continue
+				}
+				if e == nil {
+					continue
+				}
+				if m := reQuery.FindStringSubmatch(e.Error()); m != nil {
+					if idx, _ := strconv.Atoi(m[1]); idx != c.Index {
+						fail("batch-fails-at-wrong-index|"+name, idx, c.Index)
+					}
+				}
+				if code := codeOf(e); code != wantCode {
+					fail("batch-error-code-differs|"+name, code, wantCode)
+				}
+			}
+			if c.OK && perr == nil {
+				if len(trees) != len(qs) {
+					fail("batch-tree-count", len(trees), len(qs))
+				} else {
+					for i, t := range trees {
+						if i == 0 && len(qs[0]) > 10000 {
+							continue
+						}
+						ind, ierr := gosqlx.Parse(qs[i])
+						if ierr != nil {
+							core.Fatalf("ok class concretised by a rejected query %q", qs[i])
+						}
+						if project.String(t.Statements) != project.String(ind.Statements) {
+							fail("batch-tree-differs", firstN(project.String(t.Statements), 300), firstN(project.String(ind.Statements), 300))
+						}
+						ast.ReleaseAST(ind)
+					}
+				}
+			}
+			if !c.OK && trees != nil {
+				fail("batch-trees-with-error", len(trees), nil)
+			}
+			for _, t := range trees {
+				ast.ReleaseAST(t)
+			}
+		}
+	}
+	run.Traces(int64(len(r.Cases)))
 }
 
 func codeOf(err error) string { return ops.Err(err).Code }
